@@ -93,6 +93,7 @@ macro_rules! sig_harness {
         #[kani::stub(chia_consensus::conditions::parse_args, $stub)]
         #[kani::stub($crate::arm::is_native, $crate::arm::is_native_no)]
         #[kani::stub(chia_consensus::conditions::PublicKey::from_bytes, $crate::stubs::pk_from_bytes_stub)]
+        #[kani::stub(chia_consensus::conditions::PublicKey::from_bytes_unchecked, $crate::stubs::pk_from_bytes_unchecked_stub)]
         #[kani::stub(chia_consensus::conditions::PublicKey::is_inf, $crate::stubs::pk_is_inf_stub)]
         #[kani::stub(chia_consensus::conditions::PublicKey::to_bytes, $crate::stubs::pk_to_bytes_stub)]
         fn $name() $body
